@@ -107,7 +107,12 @@ def make(kind, key):
             return f.new(k, m, nonce=key[:11], msg_len=4000)
     if base in POINT_KINDS:
         from Crypto.PublicKey import ECC
-        return ECC._curves[base].G.copy()
+        G = ECC._curves[base].G
+        if key[:1] and key[0] % 3 == 0:
+            # an accumulator that starts from the neutral element the API hands out (acc = P.point_at_infinity(); acc += ...): every call
+            # must return an object of its own
+            return G.point_at_infinity()
+        return G.copy()
     raise HarnessError("unknown kind " + kind)
 
 
